@@ -582,7 +582,7 @@ Proof.
     destruct (Waker.creg (chs st c)); inversion H; subst; clear H; [|auto].
     split; [|split; [prist st t|wfi_same st]]. bm0 st t. pick_new. newok_tac.
   - (* CNew *)
-    destruct (negb (is_main t) || wused st w); [inversion H; subst; auto|].
+    destruct (negb (is_main t) || wused st w || (1000000 <=? w) || (w <? 0)); [inversion H; subst; auto|].
     destruct (wh_add st (HPlain w)) as [[st1 wi]|] eqn:E; inversion H; subst; clear H; [|auto].
     destruct (wh_add_core _ _ _ _ E) as [c1 [A [B [C1 [C2 [C3 [C4 [C5 [C6 [C7 C8]]]]]]]]]].
     destruct (wh_add_reg st (HPlain w) st1 wi I ltac:(discriminate) E) as [R1 R2].
@@ -639,7 +639,7 @@ Proof.
       * intros w0 wi0. cbn. rewrite C5. intro E0. apply R1. eapply W1; eauto.
       * intros c0. cbn. unfold updZ. rewrite C7. destruct (Z.eqb_spec c0 c); subst; cbn; [intros _; exact R2|].
         intro E0. apply R1. apply W2; auto.
-      * intros c0. cbn. unfold updZ. rewrite C7. destruct (Z.eqb_spec c0 c); subst; cbn; [discriminate|]. apply W3.
+      * intros c0. cbn. unfold updZ. rewrite C7. destruct (Z.eqb_spec c0 c); subst; cbn; [auto|]. apply W3.
   - (* CCDrop *)
     destruct (negb (is_main t) || negb (cguard (chs st c))); inversion H; subst; clear H; [auto|].
     split; [|split; [prist st t|wfi_same st]]. bm0 st t. pick_new. newok_tac.
@@ -804,7 +804,7 @@ Proof.
   - destruct (wreg st w); [destruct (wbusy st w)|]; inversion H; subst; cbn; lia.
   - destruct (Waker.creg (chs st c)); inversion H; subst; cbn; lia.
   - destruct (Waker.creg (chs st c)); inversion H; subst; cbn; lia.
-  - destruct (negb (is_main t) || wused st w); [inversion H; subst; lia|].
+  - destruct (negb (is_main t) || wused st w || (1000000 <=? w) || (w <? 0)); [inversion H; subst; lia|].
     destruct (wh_add st (HPlain w)) as [[st1 wi]|] eqn:E; inversion H; subst; [|lia].
     destruct (wh_add_core _ _ _ _ E) as [c1 [A [B [C1 [C2 _]]]]]. cbn. lia.
   - destruct (negb (is_main t)); [inversion H; subst; lia|].
